@@ -2,9 +2,306 @@
 
 `confirm(result, ...)` returns None when the harness family has no API-level
 mapping (the unit-level native playback is then the only replay), otherwise a
-dict with `reproduced` and the cases that were run.
+dict {reproduced, cases:[...]}: the witness values of the failed harness are
+turned into calls of the public API (Regex::xpath / xsd, is_match, replace_all,
+analyze), run natively in a tiny crate with a path dependency on the scratch
+copy of the repository, each call in its own process under a watchdog, and the
+outcome is compared with an expectation computed here, in Python, from the
+property statement.
 """
+import os
+import re
+import subprocess
+
+MAIN_RS = r'''
+use regexml::Regex;
+fn unhex(s: &str) -> String {
+    let mut out = String::new();
+    for part in s.split(',') { if part.is_empty() { continue; }
+        if let Some(c) = u32::from_str_radix(part, 16).ok().and_then(char::from_u32) { out.push(c); } }
+    out
+}
+fn hex(s: &str) -> String { s.chars().map(|c| format!("{:x}", c as u32)).collect::<Vec<_>>().join(",") }
+fn kind(e: &regexml::Error) -> &'static str {
+    match e { regexml::Error::Internal => "Internal", regexml::Error::InvalidFlags(_) => "InvalidFlags",
+        regexml::Error::Syntax(_) => "Syntax", regexml::Error::MatchesEmptyString => "MatchesEmptyString",
+        regexml::Error::InvalidReplacementString(_) => "InvalidReplacementString" }
+}
+fn main() {
+    let a: Vec<String> = std::env::args().collect();
+    let (op, dialect) = (a[1].as_str(), a[2].as_str());
+    let (p, f, s, r) = (unhex(&a[3]), unhex(&a[4]), unhex(&a[5]), unhex(&a[6]));
+    let re = if dialect == "xsd" { Regex::xsd(&p, &f) } else { Regex::xpath(&p, &f) };
+    let re = match re { Ok(re) => re, Err(e) => { println!("RESULT compile-err:{}", kind(&e)); return; } };
+    match op {
+        "compile" => println!("RESULT ok"),
+        "is_match" => println!("RESULT {}", re.is_match(&s)),
+        "replace_all" => match re.replace_all(&s, &r) { Ok(o) => println!("RESULT ok:{}", hex(&o)), Err(e) => println!("RESULT err:{}", kind(&e)) },
+        "analyze" => match re.analyze(&s) { Ok(it) => println!("RESULT ok:{}", it.count()), Err(e) => println!("RESULT err:{}", kind(&e)) },
+        _ => println!("RESULT ?"),
+    }
+}
+'''
+
+
+def _u(v):
+    return int.from_bytes(bytes(v), "little")
+
+
+def _ch(v):
+    cp = _u(v)
+    try:
+        return chr(cp)
+    except ValueError:
+        return "�"
+
+
+def _hex(s):
+    return ",".join("%x" % ord(c) for c in s)
+
+
+class Native:
+    def __init__(self, repo_dir, scratch, env):
+        self.dir = os.path.join(scratch, "apireplay")
+        os.makedirs(os.path.join(self.dir, "src"), exist_ok=True)
+        open(os.path.join(self.dir, "Cargo.toml"), "w").write(
+            '[package]\nname = "apireplay"\nversion = "0.0.0"\nedition = "2021"\n[dependencies]\n'
+            'regexml = { path = "%s/regexml" }\n[workspace]\n' % repo_dir)
+        open(os.path.join(self.dir, "src/main.rs"), "w").write(MAIN_RS)
+        lock = os.path.join(repo_dir, "Cargo.lock")
+        if os.path.exists(lock):
+            import shutil
+            shutil.copy(lock, os.path.join(self.dir, "Cargo.lock"))
+        self.env = dict(env)
+        self.env["CARGO_TARGET_DIR"] = os.path.join(scratch, "apireplay-target")
+        r = subprocess.run(["cargo", "build", "--offline"], cwd=self.dir, env=self.env, text=True,
+                           stdout=subprocess.PIPE, stderr=subprocess.STDOUT)
+        self.ok = r.returncode == 0
+        self.build_log = r.stdout[-1500:]
+        self.bin = os.path.join(self.env["CARGO_TARGET_DIR"], "debug", "apireplay")
+
+    def run(self, op, dialect, pattern, flags="", inp="", repl=""):
+        try:
+            r = subprocess.run([self.bin, op, dialect, _hex(pattern), _hex(flags), _hex(inp), _hex(repl)],
+                               text=True, stdout=subprocess.PIPE, stderr=subprocess.STDOUT, timeout=20)
+        except subprocess.TimeoutExpired:
+            return "HANG"
+        m = re.search(r"^RESULT (.*)$", r.stdout, re.M)
+        if m:
+            return m.group(1)
+        if "panicked at" in r.stdout:
+            pm = re.search(r"panicked at ([^\n]*)\n([^\n]*)", r.stdout)
+            return "PANIC " + (pm.group(1) + " " + pm.group(2) if pm else "")
+        return "?" + r.stdout[-200:]
+
+
+# ---- reference semantics written from the property statements -------------
+def model_lower(c):
+    u = ord(c)
+    if 0x41 <= u <= 0x5A or (0xC0 <= u <= 0xDE and u != 0xD7) or (0x391 <= u <= 0x3A9 and u != 0x3A2) or 0x410 <= u <= 0x42F:
+        return chr(u + 32)
+    if 0x400 <= u <= 0x40F:
+        return chr(u + 80)
+    if 0x10400 <= u <= 0x10427:
+        return chr(u + 40)
+    return c
+
+
+def in_model(c):
+    u = ord(c)
+    return u < 0x80 or (0xC0 <= u <= 0xFE and u not in (0xD7, 0xF7, 0xDF)) or (0x391 <= u <= 0x3C9 and u not in (0x3A2, 0x3C2)) \
+        or 0x400 <= u <= 0x45F or 0x10400 <= u <= 0x1044F
+
+
+def ref_strip(p):
+    out, esc, depth = [], False, 0
+    for c in p:
+        if c in "\t\n\r " and depth == 0:
+            continue
+        out.append(c)
+        if esc:
+            esc = False
+        elif c == "\\":
+            esc = True
+        elif c == "[":
+            depth += 1
+        elif c == "]":
+            depth -= 1
+    return "".join(out)
+
+
+def ref_expand(repl, groups):
+    """groups: list of str-or-None, index 0 = whole match.  Returns str or None (invalid)."""
+    n_groups = len(groups) - 1
+    out, i = [], 0
+    while i < len(repl):
+        ch = repl[i]
+        if ch == "\\":
+            if i + 1 < len(repl) and repl[i + 1] in "\\$":
+                out.append(repl[i + 1])
+                i += 2
+            else:
+                return None
+        elif ch == "$":
+            if i + 1 < len(repl) and repl[i + 1] in "0123456789":
+                n = int(repl[i + 1])
+                i += 2
+                if n_groups > 9:
+                    while i < len(repl) and repl[i] in "0123456789" and n * 10 + int(repl[i]) <= n_groups:
+                        n = n * 10 + int(repl[i])
+                        i += 1
+                if n <= n_groups and groups[n] is not None:
+                    out.append(groups[n])
+            else:
+                return None
+        else:
+            out.append(ch)
+            i += 1
+    return "".join(out)
+
+
+META = set("\\|.-^?*+{}()[]$")
+
+
+def lit(c):
+    return ("\\" + c) if c in META else c
+
+
+def ref_bracket(t):
+    m = re.fullmatch(r"\{([0-9]+)(?:(,)([0-9]*))?\}", t, re.A)
+    if not m:
+        return False
+    if m.group(2) and m.group(3):
+        return int(m.group(1)) <= int(m.group(3))
+    return True
+
+
+# ---- per-family case builders ------------------------------------------------
+def _sym_arr(vals, k, n):
+    """sym_arr: len (8 bytes) then n chars."""
+    ln = _u(vals[k])
+    chars = [_ch(v) for v in vals[k + 1:k + 1 + n]]
+    return "".join(chars[:ln]), k + 1 + n
+
+
+def _sym_input(vals, k):
+    """sym_input: len (8 bytes) then exactly len chars."""
+    ln = _u(vals[k])
+    chars = [_ch(v) for v in vals[k + 1:k + 1 + ln]]
+    return "".join(chars), k + 1 + ln
 
 
 def confirm(res, repo_dir, scratch, env):
+    name = res.h.name
+    vals = (res.replay or {}).get("concrete_vals") or []
+    if not vals or not isinstance(vals[0], list):
+        return None
+    try:
+        cases = build_cases(name, vals)
+    except Exception as e:  # malformed witness: no API-level statement
+        return {"reproduced": False, "note": "could not decode witness: %r" % (e,)}
+    if cases is None:
+        return None
+    nat = Native(repo_dir, scratch, env)
+    if not nat.ok:
+        return {"reproduced": False, "note": "native replay crate did not build: " + nat.build_log}
+    out = []
+    reproduced = False
+    for c in cases:
+        got = nat.run(c["op"], c.get("dialect", "xpath"), c["pattern"], c.get("flags", ""), c.get("input", ""),
+                      c.get("replacement", ""))
+        if "mirror" in c:
+            # the statement equates this call with the same call on another spelling
+            c["expect"] = nat.run(c["op"], c.get("dialect", "xpath"), c["mirror"], c.get("mirror_flags", ""),
+                                  c.get("input", ""), c.get("replacement", ""))
+        bad = got.startswith("PANIC") or got == "HANG" or (c.get("expect") is not None and got != c["expect"]) \
+            or (c.get("expect_not") is not None and got.startswith(c["expect_not"]))
+        rec = {k: c[k] for k in ("op", "pattern", "flags", "input", "replacement", "expect") if k in c}
+        rec["got"] = got
+        rec["violates_statement"] = bool(bad)
+        out.append(rec)
+        reproduced = reproduced or bad
+    return {"reproduced": reproduced, "cases": out,
+            "note": "expectations computed in Python from the property statement"}
+
+
+def build_cases(name, vals):
+    if name.startswith("e_flags_"):
+        n = int(name[-1])
+        ln = _u(vals[0])
+        f = "".join(chr(_u(v)) for v in vals[1:1 + n])[:ln]
+        xsd = "_xsd_" in name
+        ok = re.fullmatch(r"[smixq]*(;[gkK]*)?" if not xsd else r"[smix]*(;[gkK]*)?", f) is not None
+        exp = None
+        if not ok:
+            exp = "compile-err:InvalidFlags"
+        return [{"op": "compile", "dialect": "xsd" if xsd else "xpath", "pattern": "a", "flags": f, "expect": exp,
+                 "expect_not": None if not ok else "compile-err:InvalidFlags"}]
+    if name.startswith("s_nesting_total_"):
+        n = int(name.rsplit("n", 1)[1])
+        p, _ = _sym_arr(vals, 0, n)
+        if not p:
+            return None
+        return [{"op": "analyze", "pattern": p, "flags": "q", "input": "x" + p + "y" + p}]
+    if name.startswith("s_strip_"):
+        n = int(name.rsplit("n", 1)[1])
+        p, _ = _sym_arr(vals, 0, n)
+        s = ref_strip(p)
+        return [{"op": "is_match", "pattern": p, "flags": "x", "input": t, "mirror": s} for t in (s, p, "a", "")]
+    if name.startswith("f_bracket_"):
+        n = int(name.rsplit("n", 1)[1])
+        t, _ = _sym_arr(vals, 0, n)
+        cases = []
+        for operand in ("a", "(b*)", "(?:a|bc)"):
+            ok = ref_bracket(t)
+            cases.append({"op": "compile", "pattern": operand + t,
+                          "expect": None if ok else "compile-err:Syntax",
+                          "expect_not": "compile-err" if ok else None})
+        return cases
+    if name.startswith("a_atom1") or name.startswith("a_atom2"):
+        k = 0
+        nat = 1 if name.startswith("a_atom1") else 2
+        atom = "".join(_ch(v) for v in vals[k:k + nat])
+        k += nat
+        inp, k = _sym_input(vals, k)
+        ci = "_i_" in name or name.endswith("_i")
+        if ci and not all(in_model(c) for c in atom + inp):
+            return None
+        f = "qi" if ci else "q"
+        if ci:
+            want = any(all(model_lower(inp[j + t]) == model_lower(atom[t]) or inp[j + t] == atom[t] for t in range(nat))
+                       for j in range(len(inp) - nat + 1))
+        else:
+            want = atom in inp
+        return [{"op": "is_match", "pattern": atom, "flags": f, "input": inp, "expect": "true" if want else "false"}]
+    if name.startswith("s_expand_"):
+        n = int(re.search(r"_n(\d)", name).group(1))
+        literal = "literal" in name
+        repl, k = _sym_arr(vals, 0, n)
+        max_parens = _u(vals[k])
+        k += 1
+        present = [True] + [bool(_u(v)) for v in vals[k:k + 12]]
+        k += 12
+        text = [_ch(v) for v in vals[k:k + 13]]
+        ng = max_parens - 1
+        # a pattern with ng groups; present groups match one fixed letter, absent ones are optional and do not occur
+        letters = "abcdefghijkl"
+        pat, inp, groups = "", "", [None]
+        for g in range(1, ng + 1):
+            if present[g]:
+                pat += "(" + letters[g - 1] + ")"
+                inp += letters[g - 1]
+                groups.append(letters[g - 1])
+            else:
+                pat += "(Z)?"
+                groups.append(None)
+        pat += "z"
+        inp += "z"
+        groups[0] = inp
+        if literal:
+            return [{"op": "replace_all", "pattern": inp, "flags": "q", "input": inp + "-" + inp, "replacement": repl,
+                     "expect": "ok:" + _hex(repl + "-" + repl)}]
+        exp = ref_expand(repl, groups)
+        return [{"op": "replace_all", "pattern": pat, "flags": "", "input": inp + "-" + inp, "replacement": repl,
+                 "expect": ("ok:" + _hex(exp + "-" + exp)) if exp is not None else "err:InvalidReplacementString"}]
     return None
